@@ -1,7 +1,7 @@
 """X01 binder (extension): the file-system side of the library -- is_audio_file / get_audio_files / Dataset.from_directory on
 materialised file trees, Recording.from_file, generate_wav_header + get_media_info, the two checksum functions.
 Encoder only: the verdict is T_FileTree's / T_WavMeta's."""
-import hashlib, io, itertools, os, random, shutil, tempfile
+import hashlib, io, itertools, os, random, shutil, signal, tempfile
 from pathlib import Path
 
 import numpy as np
@@ -140,27 +140,57 @@ def _materialise(tree, base):
     return arg, files
 
 
+class _NotStopped(BaseException):
+    pass
+
+
+class _deadline:
+    """a call that has not returned after SECONDS is cut off (SIGALRM; binders run in the main thread of their process):
+    a walk through a cycle of links examines exponentially many directories before the kernel's link limit stops it"""
+    SECONDS = 20
+
+    def _fire(self, *a):
+        raise _NotStopped()
+
+    def __enter__(self):
+        self.old = signal.signal(signal.SIGALRM, self._fire)
+        signal.setitimer(signal.ITIMER_REAL, self.SECONDS)
+
+    def __exit__(self, *a):
+        signal.setitimer(signal.ITIMER_REAL, 0)
+        signal.signal(signal.SIGALRM, self.old)
+        return False
+
+
 def _walk(arg, f, i):
     kw = {}
     if not (f["strict"] is False and f["rec"] is True and f["follow"] is False):     # the defaults are exercised as defaults
         kw = dict(strict=f["strict"], recursive=f["rec"], follow_symlinks=f["follow"])
     a = str(arg) if i % 2 else arg
+    got = []
     try:
-        got = list(itertools.islice(get_audio_files(a, **kw), LIMIT + 1))
+        with _deadline():
+            for p in itertools.islice(get_audio_files(a, **kw), LIMIT + 1):
+                got.append(p)
+    except _NotStopped:
+        got = got[:LIMIT] + [None] * (LIMIT + 1 - len(got[:LIMIT]))
     except Exception as ex:
         return {"raised": _exc(ex), "order": [], "sorted": []}
-    order = [_rel(p, arg) for p in got[:LIMIT]]
+    order = [_rel(p, arg) for p in got[:LIMIT] if p is not None]
     if len(got) > LIMIT:
-        order.append("NOT-STOPPED-AFTER-%d" % LIMIT)
+        order.append("NOT-STOPPED-AFTER-%d-PATHS-OR-%d-SECONDS" % (LIMIT, _deadline.SECONDS))
     return {"raised": "", "order": order, "sorted": sorted(order)}
 
 
 def _dataset(arg, c):
     try:
-        if c["rec"] and c["hash"]:
-            d = data.Dataset.from_directory(arg, name="the name")                       # both at their defaults
-        else:
-            d = data.Dataset.from_directory(arg, name="the name", recursive=c["rec"], compute_hash=c["hash"])
+        with _deadline():
+            if c["rec"] and c["hash"]:
+                d = data.Dataset.from_directory(arg, name="the name")                       # both at their defaults
+            else:
+                d = data.Dataset.from_directory(arg, name="the name", recursive=c["rec"], compute_hash=c["hash"])
+    except _NotStopped:
+        return {"raised": "NotStopped", "name": "", "descnone": True, "recs": []}
     except Exception as ex:
         return {"raised": _exc(ex), "name": "", "descnone": True, "recs": []}
     recs = [{"p": _rel(r.path, arg), "sr": int(r.samplerate), "ch": int(r.channels), "dur": limbs(r.duration),
